@@ -19,13 +19,15 @@ type f1sManyType struct {
 	decl string // struct declaration, if any
 	num  bool   // host-shareable (no bool)
 	one  string // a non-zero value of the type
+	io   bool   // usable as a @location input/output (numeric scalar or vector)
+	uni  bool   // usable as the store type of a uniform variable without layout attributes (scalar, vector, matCx3/matCx4)
 }
 
 func f1sManyTypes() []f1sManyType {
 	var scal, vecs, mats, arrs, strs []f1sManyType
 	ones := map[string]string{"f32": "1.5", "i32": "-2", "u32": "3u", "bool": "true"}
 	for _, k := range []string{"f32", "i32", "u32", "bool"} {
-		scal = append(scal, f1sManyType{name: k, num: k != "bool", one: ones[k]})
+		scal = append(scal, f1sManyType{name: k, num: k != "bool", one: ones[k], io: k != "bool", uni: k != "bool"})
 	}
 	for n := 2; n <= 4; n++ {
 		for _, k := range []string{"f32", "i32", "u32", "bool"} {
@@ -34,7 +36,7 @@ func f1sManyTypes() []f1sManyType {
 			for i := 0; i < n; i++ {
 				cs = append(cs, ones[k]) // written out: the splat form is a separate (F1s/const) program
 			}
-			vecs = append(vecs, f1sManyType{name: t, num: k != "bool", one: t + "(" + strings.Join(cs, ", ") + ")"})
+			vecs = append(vecs, f1sManyType{name: t, num: k != "bool", one: t + "(" + strings.Join(cs, ", ") + ")", io: k != "bool", uni: k != "bool"})
 		}
 	}
 	for c := 2; c <= 4; c++ {
@@ -48,7 +50,7 @@ func f1sManyTypes() []f1sManyType {
 				}
 				cols = append(cols, fmt.Sprintf("vec%d<f32>(%s)", r, strings.Join(cs, ", ")))
 			}
-			mats = append(mats, f1sManyType{name: t, num: true, one: t + "(" + strings.Join(cols, ", ") + ")"})
+			mats = append(mats, f1sManyType{name: t, num: true, one: t + "(" + strings.Join(cols, ", ") + ")", uni: r != 2})
 		}
 	}
 	elems := []f1sManyType{scal[0], scal[2], vecs[0], vecs[9], scal[1], vecs[4], mats[0], vecs[2], mats[4]}
@@ -135,10 +137,20 @@ func f1sManySrc(n int, order string) string {
 			fmt.Fprintf(&sb, "const k%d: %s = %s;\n", i, t.name, t.one)
 		}
 	}
+	// one variable per host-shareable type in the storage address space, one per eligible type in the uniform
+	// address space (pointer types of every storage class over the same pointee ids)
+	for i, t := range ts {
+		if t.num && i%2 == 0 {
+			fmt.Fprintf(&sb, "@group(1) @binding(%d) var<storage, read_write> sb%d: %s;\n", i, i, t.name)
+		}
+		if t.uni {
+			fmt.Fprintf(&sb, "@group(2) @binding(%d) var<uniform> ub%d: %s;\n", i, i, t.name)
+		}
+	}
 	band := func(i int) []int {
 		var js []int
-		for d := 1; d <= 3; d++ {
-			js = append(js, (i+d*d)%n)
+		for _, d := range []int{1, 2, 5} { // distinct modulo every n >= 6
+			js = append(js, (i+d)%n)
 		}
 		return js
 	}
@@ -160,6 +172,12 @@ func f1sManySrc(n int, order string) string {
 		if i%4 == 1 {
 			fns = append(fns, fn{"k", "", fmt.Sprintf("  g%d = k%d;\n", i, i)})
 		}
+		if t.num && i%2 == 0 {
+			fns = append(fns, fn{"sb", "", fmt.Sprintf("  sb%d = g%d;\n  g%d = sb%d;\n", i, i, i, i)})
+		}
+		if t.uni {
+			fns = append(fns, fn{"ub", "", fmt.Sprintf("  g%d = ub%d;\n", i, i)})
+		}
 	}
 	switch order {
 	case "rev":
@@ -168,7 +186,7 @@ func f1sManySrc(n int, order string) string {
 		}
 	case "fnfirst":
 		var byKind []fn
-		for _, k := range []string{"pr", "r", "p", "p2", "qp", "qf", "w", "k"} {
+		for _, k := range []string{"pr", "r", "p", "p2", "qp", "qf", "w", "k", "ub", "sb"} {
 			for _, f := range fns {
 				if f.kind == k {
 					byKind = append(byKind, f)
@@ -195,6 +213,35 @@ func f1sManySrc(n int, order string) string {
 		fmt.Fprintf(&sb, "  sink += %du;\n  si += %d;\n", bits, bits)
 	}
 	sb.WriteString("  out[0] = sink + u32(si) + u32(sf) + su2.x + u32(si2.y) + u32(sf2.x) + su3.z + u32(si4.w);\n}\n")
+	// a vertex and a fragment entry point whose @location inputs / outputs run over every numeric scalar and
+	// vector type among the first n (Input and Output pointer types over the same pointee ids)
+	var ins, mem, body, fin, fsum []string
+	loc := 0
+	for _, t := range ts {
+		if !t.io || loc >= 12 {
+			continue
+		}
+		flat := ""
+		if !strings.Contains(t.name, "f32") {
+			flat = " @interpolate(flat)"
+		}
+		ins = append(ins, fmt.Sprintf("@location(%d) a%d: %s", loc, loc, t.name))
+		mem = append(mem, fmt.Sprintf("@location(%d)%s m%d: %s", loc, flat, loc, t.name))
+		body = append(body, fmt.Sprintf("  o.m%d = a%d;\n", loc, loc))
+		fin = append(fin, fmt.Sprintf("@location(%d)%s a%d: %s", loc, flat, loc, t.name))
+		k, nn := f1sScalarOf(t.name)
+		x := fmt.Sprintf("a%d", loc)
+		if nn > 1 {
+			x += ".x"
+		}
+		if k != "f32" {
+			x = "f32(" + x + ")"
+		}
+		fsum = append(fsum, x)
+		loc++
+	}
+	fmt.Fprintf(&sb, "struct VOut { @builtin(position) pos: vec4<f32>, %s }\n@vertex\nfn vs(%s) -> VOut {\n  var o: VOut;\n  o.pos = vec4<f32>(0.0, 0.0, 0.0, 1.0);\n%s  return o;\n}\n", strings.Join(mem, ", "), strings.Join(ins, ", "), strings.Join(body, ""))
+	fmt.Fprintf(&sb, "@fragment\nfn fs(%s) -> @location(0) vec4<f32> {\n  return vec4<f32>(%s);\n}\n", strings.Join(fin, ", "), strings.Join(fsum, " + "))
 	return sb.String()
 }
 
